@@ -438,6 +438,9 @@ retry:
 				code, pos, end := p.loadExpr(srcExpr)
 				p.panicCodeErrorf(pos, end, "invalid operation %s (3-index slice of string)", code)
 			}
+			if t.Kind() == types.UntypedString { // slicing a constant string yields a non-constant value of type string
+				typ = types.Typ[types.String]
+			}
 		} else {
 			code, pos, end := p.loadExpr(x.Src)
 			p.panicCodeErrorf(pos, end, "cannot slice %s (type %v)", code, typ)
